@@ -5,6 +5,7 @@ mod gen;
 mod model;
 mod p_kmer;
 mod p_min;
+mod p_io;
 mod p_tables;
 mod p_vec;
 mod util;
@@ -47,6 +48,22 @@ fn parse_case(line: &str) -> Option<Case> {
     let mut c = Case::new(kind, &params, &seq, "corpus");
     c.extra = extra;
     Some(c)
+}
+
+fn load_corpus_lines(dir: &str) -> Vec<String> {
+    let mut out = Vec::new();
+    if let Ok(rd) = std::fs::read_dir(dir) {
+        let mut paths: Vec<_> = rd.filter_map(|e| e.ok()).map(|e| e.path()).collect();
+        paths.sort();
+        for p in paths {
+            if p.extension().map(|e| e == "req").unwrap_or(false) {
+                if let Ok(text) = std::fs::read_to_string(&p) {
+                    out.extend(text.lines().filter(|l| !l.trim().is_empty() && !l.starts_with('#')).map(|l| l.to_string()));
+                }
+            }
+        }
+    }
+    out
 }
 
 fn load_corpus(dir: &str) -> Vec<Case> {
@@ -123,8 +140,14 @@ fn main() {
         println!("{}", p_tables::dump());
         return;
     }
-    let _ = &work;
     let model = Model::new(&model_path);
+    let corpus_lines: Vec<String> = if !replay.is_empty() {
+        let text = std::fs::read_to_string(&replay).unwrap_or_default();
+        text.lines().filter_map(|l| l.strip_prefix("request: ")).map(|l| l.to_string()).collect()
+    } else {
+        load_corpus_lines(&corpus_dir)
+    };
+    let _ = std::fs::create_dir_all(&work);
     let corpus = if !replay.is_empty() {
         // a replay file carries the request on its `request:` line
         let text = std::fs::read_to_string(&replay).unwrap_or_default();
@@ -160,6 +183,7 @@ fn main() {
             p_vec::run_c12_one(eff_tier, &mut rng, &model, &mut rep, corpus);
             rep
         }
+        "C06" => p_io::run_c06(eff_tier, seed, &model, corpus_lines, &work),
         "C09" => p_min::run_c09(eff_tier, seed, &model, corpus),
         "C18" => p_min::run_c18(eff_tier, seed, &model, corpus),
         _ => {
